@@ -361,6 +361,18 @@ def check_contain(acc):
                 s = String("s", "BOOM" if where == "string" else "sv", 9, "@string{s}")
                 lib = Library([e, s, Preamble("BOOM")])
                 m = LatexEncodingMiddleware(encoder=Boom(), allow_inplace_modification=ip) if enc else LatexDecodingMiddleware(decoder=Boom(), allow_inplace_modification=ip)
+                # history on the same instance: a library whose @string fails comes first, then good entries
+                try:
+                    pre = m.transform(Library([String("s0", "BOOM"), Entry("a", "g1", [Field("a", "ok")]), String("s1", "BOOM"), Entry("a", "g2", [Field("z", "ok")])]))
+                    kinds = [type(b).__name__ for b in pre.blocks]
+                    vals = [b.fields[0].value for b in pre.blocks if isinstance(b, Entry)]
+                    if [k for k in kinds if k == "Entry"] != ["Entry", "Entry"] or vals != ["ok!", "ok!"]:
+                        acc.violation(
+                            {"oracle": "failure_of_one_block_does_not_touch_others", "where": "string then entry"},
+                            {"case": {"contain": "string-then-entry", "encoder": enc, "inplace": ip}, "observed": kinds + vals, "expected": "both entries converted, not error blocks"},
+                        )
+                except Exception as ex:
+                    acc.violation({"oracle": "conversion_failure_contained", "exception": type(ex).__name__}, {"case": {"contain": "string-then-entry", "encoder": enc, "inplace": ip}, "observed": repr(ex), "expected": "no exception"})
                 case = {"contain": where, "encoder": enc, "inplace": ip}
                 acc.trace()
                 acc.case(nontrivial_key=("contain", where, enc, ip))
@@ -399,6 +411,8 @@ def check_contain(acc):
 
 
 def run_shard(shard, tier, acc):
+    _ENC.clear()  # long-lived instances within a shard only
+    _DEC.clear()
     if shard[0] == "rt":
         for toks in seq_iter(SIGMA, shard[1]):
             check_text(toks, acc)
